@@ -16,11 +16,17 @@ CLASS_HOME = {
     'FiniteDifference': 'openmdao/approximation_schemes/finite_difference.py',
     '_SubHelper': 'openmdao/utils/file_wrap.py',
     'DOEDriver': 'openmdao/drivers/doe_driver.py',
+    '_pyDOE_Generator': 'openmdao/drivers/doe_generators.py',
     'Subjac': 'openmdao/jacobians/subjac.py',
     'DenseSubjac': 'openmdao/jacobians/subjac.py',
     'OMCOOSubjac': 'openmdao/jacobians/subjac.py',
     'DiagonalSubjac': 'openmdao/jacobians/subjac.py',
     'DefaultTransfer': 'openmdao/vectors/default_transfer.py',
+    'DenseMatrix': 'openmdao/matrices/dense_matrix.py',
+    'Matrix': 'openmdao/matrices/matrix.py',
+    'ExplicitComponent': 'openmdao/core/explicitcomponent.py',
+    'Component': 'openmdao/core/component.py',
+    'System': 'openmdao/core/system.py',
     'ComplexStep': 'openmdao/approximation_schemes/complex_step.py',
     'OptionsDictionary': 'openmdao/utils/options_dictionary.py',
     'Autoscaler': 'openmdao/drivers/autoscalers/autoscaler.py',
@@ -35,6 +41,7 @@ PROPERTY_MODULES = {
     'C33': ['contracts.c33_vector'],
     'C09': ['contracts.c09_solvers'],
     'C20': ['contracts.c20_scaling'],
+    'C21': ['contracts.c21_scipy'],
     'C22': ['contracts.c22_conviol'],
     'C27': ['contracts.c27_options'],
     'C13': ['contracts.c13_checks'],
@@ -47,6 +54,7 @@ PROPERTY_MODULES = {
     'C05': ['contracts.c05_indexer'],
     'C23': ['contracts.c23_doe'],
     'C02': ['contracts.c02_adjoint'],
+    'C11': ['contracts.c11_assembled'],
 }
 
 # modules whose contracts may be used as callee contracts by any property
@@ -76,6 +84,7 @@ PROPERTY_ASSUMPTIONS = {
             'assumed: _iter_get_norm returns NaN or a value >= 0; _single_iteration and _run_apply neither raise nor modify solver control state'],
 }
 GAPS = {
+    'C11': ['COOMatrix/CSCMatrix/CSRMatrix (scipy.sparse construction, lexsort index maps, np.add.at accumulation): bounded tiers only', 'DenseMatrix._build (repeated-entry decision) and the COO fallback path of DenseMatrix', 'DenseMatrix._update_dtype / complex-step dtype switches: bounded tiers only', 'SplitJacobian._apply / _get_split_subjacs (which factor and src_indices each sub-jacobian gets)', 'scipy-format sub-jacobian kernels (assumed: scipy @ and .T)'],
     'C02': ['Group._apply_linear / System recursion and scaling contexts', 'linear solvers (LAPACK/SuperLU/Krylov) in fwd vs rev', 'scipy-format sub-jacobians (COO/CSR/CSCSubjac use scipy @ and .T: assumed)', 'assembled matrices _prod (C11)', 'DictionaryJacobian._apply for implicit components, compute_jacvec_product, matrix-free components', 'Problem-level <w, J v> = <J^T w, v>'],
     'C23': ['all generator classes (value maps, designs, strata, reproducibility): bounded exhaustive tier only', 'drivers/sampling/* counterparts', 'Driver._set_design_var (assumed)', 'parallel DOE (MPI)'],
     'C05': ['Indexer class hierarchy (shaped_instance / as_array / indexed_src_shape / _check_bounds): bounded exhaustive tier against NumPy only', 'index chains through promotes (C04)', 'known finding F5a (recorded, not repaired)'],
@@ -105,8 +114,15 @@ def _run_bounded(script, args, timeout=3000):
     env['PYTHONPATH'] = here + os.pathsep + os.environ.get('PYVC_REPO', '/repo')
     env['OPENMDAO_REPORTS'] = '0'
     env['PYTHONWARNINGS'] = 'ignore'
-    p = subprocess.run([os.environ.get('PYVC_NATIVE_PY', '/venv/bin/python'), os.path.join(here, 'bounded', script)] + [str(a) for a in args],
-                       capture_output=True, text=True, timeout=timeout, env=env, cwd='/tmp')
+    env.setdefault('OMP_NUM_THREADS', '1')
+    env.setdefault('OPENBLAS_NUM_THREADS', '1')
+    import tempfile, shutil
+    scratch = tempfile.mkdtemp(prefix='pyvc_bounded_')      # problems leave *_out directories behind
+    try:
+        p = subprocess.run([os.environ.get('PYVC_NATIVE_PY', '/venv/bin/python'), os.path.join(here, 'bounded', script)] + [str(a) for a in args],
+                           capture_output=True, text=True, timeout=timeout, env=env, cwd=scratch)
+    finally:
+        shutil.rmtree(scratch, ignore_errors=True)
     if p.returncode != 0:
         return {'error': p.stderr[-1500:]}
     try:
@@ -221,7 +237,7 @@ def _c29_extra(tier, seed, native_run):
         return out
     out['bounded_filewrap_roundtrip'] = {
         'note': 'BOUNDED stand-in (not counted in obligations): InputFileGenerator.transfer_var/transfer_array -> FileParser.transfer_var/transfer_array round trip (re + pyparsing are outside the subset)',
-        'bound': 'templates <=3 lines x <=4 fields, delimiters {space, comma}, every field position, 22 values incl. +-inf, nan, denormal, max float; arrays of length <=3 at every start',
+        'bound': 'templates <=3 lines x <=4 fields, delimiters {space, comma}, every field position, 26 values incl. +-inf, nan, denormal, max float, point-free exponent forms (1e-05, -1e-05); arrays of length <=3 at every start',
         'evaluations': r['evaluations'], 'distinct_nontrivial': r['distinct_nontrivial'], 'exhaustive': True,
         'failures': r['n_failures'], 'samples': r['samples']}
     for f in r['failures'][:3]:
@@ -307,3 +323,27 @@ def _c02_extra(tier, seed, native_run):
 
 
 EXTRA_TIERS['C02'] = _c02_extra
+
+
+def _c11_extra(tier, seed, native_run):
+    out = run_lean(['coo_adjoint', 'coo_adjoint_ind', 'adjoint_exchange_masked'])
+    out['violations'] = []
+    for script, key, note, bound in (
+            ('c11_matrices.py', 'bounded_matrix_formats',
+             'BOUNDED stand-in (not counted in obligations): real DenseMatrix/COOMatrix/CSCMatrix/CSRMatrix life cycle (_build, _pre_update, _update_from_submat, _post_update, _prod fwd/rev with/without mask, todense) on random Subjac collections vs an explicit dense accumulation',
+             '%d random layouts (<=3 sources x <=3 residual blocks of extent <=4, <=5 sub-jacobians of 7 kinds incl. duplicate rows/cols, repeated src_indices, shared source columns, unit factors) x 4 matrix classes x 4 updates (new values, complex, back to float)' % (150 if tier == 'quick' else 1500)),
+            ('c11_formats.py', 'bounded_model_formats',
+             'BOUNDED stand-in (not counted in obligations): whole-model totals with dictionary / dense / csc / csr assembled jacobians in fwd and rev mode vs the explicit chain rule',
+             'two components x 6 declaration formats each x 3 src_indices choices (%s), second input on the same source with other unit and repeated indices, 2 updates + complex-step switch' % ('every 7th combination' if tier == 'quick' else 'all 108 combinations'))):
+        r = _run_bounded(script, [tier])
+        if 'error' in r:
+            out['errors'].append('bounded tier %s could not run: %s' % (script, r['error']))
+            continue
+        out[key] = {'note': note, 'bound': bound, 'evaluations': r['evaluations'], 'distinct_nontrivial': r['distinct_nontrivial'],
+                    'exhaustive': False, 'failures': r['n_failures'], 'samples': r['samples']}
+        for f in r['failures'][:3]:
+            out['violations'].append(dict(f, what='assembled jacobian formats: ' + f['kind'], witness_id='c11-%s' % json_key(f)))
+    return out
+
+
+EXTRA_TIERS['C11'] = _c11_extra
